@@ -129,14 +129,107 @@ func edgeOpen(info *types.Info, e *GEdge, env Env) bool {
 // ReachUnder returns the vertices reachable from entry under env.
 func (g *FG) ReachUnder(env Env) map[*GNode]bool {
 	info := g.Info
+	env = g.withLocals(env)
 	seen, _ := g.ReachFromEntry(nil, func(e *GEdge) bool { return !edgeOpen(info, e, env) })
 	return seen
+}
+
+// withLocals extends env through locals that have exactly one plain definition in the function (x := expr / var x = expr
+// with no other assignment, increment or address-taking): such an identifier folds to the value of its definition.
+// This keeps the tables exact when a sub-expression is hoisted into a local.
+func (g *FG) withLocals(env Env) Env {
+	if g.localDefs == nil {
+		g.localDefs = map[types.Object]ast.Expr{}
+		cnt := map[types.Object]int{}
+		body := g.F.Body()
+		ast.Inspect(body, func(n ast.Node) bool {
+			switch s := n.(type) {
+			case *ast.AssignStmt:
+				for i, l := range s.Lhs {
+					o := objOf(g.Info, l)
+					if o == nil {
+						continue
+					}
+					if (s.Tok == token.DEFINE || s.Tok == token.ASSIGN) && len(s.Lhs) == len(s.Rhs) {
+						cnt[o]++
+						g.localDefs[o] = s.Rhs[i]
+					} else {
+						cnt[o] += 2
+					}
+				}
+			case *ast.IncDecStmt:
+				if o := objOf(g.Info, s.X); o != nil {
+					cnt[o] += 2
+				}
+			case *ast.UnaryExpr:
+				if s.Op == token.AND {
+					if o := objOf(g.Info, s.X); o != nil {
+						cnt[o] += 2
+					}
+				}
+			case *ast.RangeStmt:
+				for _, e := range []ast.Expr{s.Key, s.Value} {
+					if e != nil {
+						if o := objOf(g.Info, e); o != nil {
+							cnt[o] += 2
+						}
+					}
+				}
+			case *ast.ValueSpec:
+				for i, nm := range s.Names {
+					if o := g.Info.Defs[nm]; o != nil {
+						if i < len(s.Values) && len(s.Values) == len(s.Names) {
+							cnt[o]++
+							g.localDefs[o] = s.Values[i]
+						} else if len(s.Values) != 0 {
+							cnt[o] += 2
+						} else {
+							cnt[o]++ // zero value declaration: later assignment makes it 2
+							delete(g.localDefs, o)
+						}
+					}
+				}
+			}
+			return true
+		})
+		for o, c := range cnt {
+			if c != 1 {
+				delete(g.localDefs, o)
+			}
+		}
+		// only true locals of this function body
+		for o := range g.localDefs {
+			if o.Pos() < body.Pos() || o.Pos() > body.End() {
+				delete(g.localDefs, o)
+			}
+		}
+	}
+	depth := 0
+	var ext Env
+	ext = func(e ast.Expr) (constant.Value, bool) {
+		if v, ok := env(e); ok {
+			return v, true
+		}
+		if id, ok := e.(*ast.Ident); ok && depth < 6 {
+			if o := g.Info.Uses[id]; o != nil {
+				if def, has := g.localDefs[o]; has {
+					depth++
+					v, ok := evalConst(g.Info, def, ext)
+					depth--
+					return v, ok
+				}
+			}
+		}
+		return nil, false
+	}
+	return ext
 }
 
 // ReturnsUnder evaluates the (single) result of every return statement reachable under env.
 // known=false when some reachable return cannot be folded. Values are deduplicated by ExactString.
 func (g *FG) ReturnsUnder(env Env) (vals []constant.Value, known bool) {
 	seen := g.ReachUnder(env)
+	env = g.withLocals(env)
 	known = true
 	have := map[string]bool{}
 	for x := range seen {
